@@ -478,6 +478,18 @@ def misc_case(case):
         n_expected = args[0]
         if out[0].shape[0] != n_expected:
             v.append(violation("wrong_shape", {"fn": fn, "shape": out[0].shape}, fn=fn))
+    elif kind == "defaults":
+        from mc.defaults import documented_defaults
+        fn, given = arg
+        f = getattr(D, fn)
+        doc = {k_: v_ for k_, v_ in documented_defaults(f).items() if k_ != "random_state"}
+        flat = lambda r: np.concatenate([np.ravel(x) for x in (r if isinstance(r, tuple) else (r,))])
+        for drop in [k_ for k_ in doc if k_ not in given]:
+            kwargs_full = dict(doc, **given)
+            kwargs_short = {k_: v_ for k_, v_ in kwargs_full.items() if k_ != drop}
+            a, b = f(**kwargs_short, random_state=11), f(**kwargs_full, random_state=11)
+            if flat(a).shape != flat(b).shape or not np.array_equal(flat(a), flat(b)):
+                v.append(violation("default_differs_from_the_documented_value", {"fn": fn, "omitted": drop, "documented_default": doc[drop]}, fn=fn, argument=drop))
     else:
         tag, loc, scale, pv = arg
         try:
@@ -538,7 +550,9 @@ def explorers(tier, seed):
     c5 = [("seeds", ("draw_gmm", (7, mean3, [I2, I2, I2], [0.5, 0.25, 0.25]))), ("seeds", ("draw_gmm", (6, [[0.0], [2.0]], [[1.0], [4.0]], [0.5, 0.5]))),
           ("seeds", ("multivariate_student_t", (6, [0.0, 1.0], I2, 3))), ("seeds", ("gstm", (9, 2, 1))), ("seeds", ("gstm", (4, 1.5, 2.5))),
           ("seeds", ("celeux_one", (6, 2, 1.7))), ("seeds", ("celeux_two", (5,))), ("seeds", ("celeux_one", (1, 1, 0.3))), ("seeds", ("celeux_two", (1,)))] + \
-         [("reject", r) for r in REJECT]
+         [("reject", r) for r in REJECT] + \
+         [("defaults", ("gstm", {"n": 40})), ("defaults", ("gstm", {})), ("defaults", ("celeux_one", {"n": 30})), ("defaults", ("celeux_one", {})), ("defaults", ("celeux_two", {})),
+          ("defaults", ("multivariate_student_t", {"n": 20, "loc": [0.0, 1.0], "scale": I2}))]
     c7 = [("draw_gmm", K, d, n, list(lab), seed) for K in (2, 3, 4) for d in (1, 2) for n in (1, 2, 3, 4) for lab in itertools.product(range(K), repeat=n) if K ** n <= 300] + \
          [("celeux_one", 3, 5, n, list(lab), seed) for n in (1, 2, 3, 4) for lab in itertools.product(range(3), repeat=n)]
     c6 = [("draw_gmm", K, d, seed) for K in (2, 3) for d in (1, 2)] + [("student", 2, d, seed) for d in (2, 3)]
